@@ -12,15 +12,18 @@ def rand_account(rng, simple=False):
     words = w + [complete_last(rng, w)]
     if rng.random() < 0.1:
         words = list(GANACHE)
-    pw = "" if (simple or rng.random() < 0.5) else rng.choice(["TREZOR", "p@ss w0rd", "\u00e9\u00e8", "x" * 40, "-dash", "\U0001f600"])
+    pw = "" if (simple or rng.random() < 0.5) else rng.choice(["TREZOR", "p@ss w0rd", "\u00e9\u00e8", "x" * 40, "-dash", "\U0001f600", "--password", "a=b", "=",
+                                                                "--mnemonic=x", " lead", "trail ", "'q'", "$HOME", "%s", "\\", "a\tb"])
     r = rng.random()
     if simple or r < 0.3:
         sel = None
     elif r < 0.7:
-        sel = ("index", rng.choice([0, 1, 2, 7, 2**31 - 1, rng.randrange(0, 2**31), rng.randrange(0, 100)]))
+        sel = ("index", rng.choice([0, 1, 2, 7, 2**31 - 1, rng.randrange(0, 2**31), rng.randrange(0, 100), 10, 255, 256, 65535, 65536, 2**31 - 2]))
     else:
         depth = rng.randint(1, 8)
         comps = [(rng.choice([0, 1, 44, 60, 2**31 - 1, rng.randrange(2**31)]), rng.random() < 0.5) for _ in range(depth)]
+        if rng.random() < 0.15:
+            comps = eth.default_path(rng.choice([0, 0, 1, 5]))  # the default shape given explicitly
         sel = ("path", eth.format_path(comps))
     return {"words": words, "password": pw, "sel": sel}
 
@@ -48,6 +51,8 @@ def account_args(rng, acc, style=None):
         use_env = style == "env" or (style == "mixed" and rng.random() < 0.5)
         if use_env:
             env[envname] = value
+        elif flag == "--mnemonic" and rng.random() < 0.3:
+            argv.extend(["-m", value])  # the short form
         elif rng.random() < 0.5:
             argv.append("%s=%s" % (flag, value))
         else:
@@ -56,7 +61,14 @@ def account_args(rng, acc, style=None):
             else:
                 argv.extend([flag, value])
 
-    put("--mnemonic", "MNEMONIC", " ".join(acc["words"]))
+    phrase = " ".join(acc["words"])
+    if rng.random() < 0.25:
+        # the same words in a hostile layout (trailing newline from `$(cat file)`, tabs, doubled blanks, non-ASCII white space)
+        from .gen import messy_layout
+        phrase = messy_layout(rng, acc["words"], bip39.ASCII_WS if rng.random() < 0.7 else bip39.UNICODE_WS.replace("\x00", ""))
+        if not phrase.strip() or phrase.lstrip() != phrase and phrase.lstrip().startswith("-"):
+            phrase = " ".join(acc["words"])
+    put("--mnemonic", "MNEMONIC", phrase)
     if acc["password"] != "" or rng.random() < 0.2:
         put("--password", "PASSWORD", acc["password"])
     if acc["sel"] is not None:
@@ -69,6 +81,15 @@ def account_args(rng, acc, style=None):
 
 def input_channel(rng, data, name="input"):
     """Returns (path argument, files dict, stdin_hex) delivering `data` through a file or stdin."""
-    if rng.random() < 0.5:
+    r = rng.random()
+    if r < 0.4:
         return "-", {}, data.hex()
+    if r < 0.5:
+        return "/dev/stdin", {}, data.hex()  # a path that happens to be standard input
+    if r < 0.65:
+        # file names that need care: blanks, non-ASCII, a leading dash (given as ./-name), shell metacharacters, a newline
+        name = rng.choice(["in put.dat", "\u00fcn\u00ef.json", "-dash.json", "a;b&c.bin", "x\ny.txt", "$HOME.txt", "--.json", "'q'.json", "-"]) if True else name
+        if name == "-":
+            name = "dash-only"
+        return "./@FILE:%s@" % name if False else "@FILE:%s@" % name, {name: data.hex()}, None
     return "@FILE:%s@" % name, {name: data.hex()}, None
